@@ -517,7 +517,6 @@ type cellInfo struct {
 	escape bool // address passed to a call or stored somewhere
 }
 
-
 func (p *Program) cells(root *ssa.Function) map[*ssa.Alloc]*cellInfo {
 	if p.cellCache == nil {
 		p.cellCache = map[*ssa.Function]map[*ssa.Alloc]*cellInfo{}
@@ -569,7 +568,6 @@ func (p *Program) singleStore(a *ssa.Alloc) ssa.Value {
 	}
 	return ci.stores[0].Val
 }
-
 
 func (p *Program) allocName(a *ssa.Alloc) string {
 	if p.allocNameCache == nil {
